@@ -1,6 +1,6 @@
 /-
-  Property C08 — PLACEHOLDER while the full theorem file (see /verif/lean/stmts) is being proved:
-  only the rollback clause is here.  Replaced by the complete file as soon as it checks.
+  Property C08 — old signer sets stay valid for exactly the configured number of rotations.
+  Statements are FIXED: prove them exactly as stated (helper lemmas go above them or in Cgp/Proofs/C08.lean).
 -/
 import Cgp.GatewaySpec
 namespace Cgp.Props.C08
@@ -8,10 +8,386 @@ open Cgp Cgp.Xdr Cgp.Gateway
 
 variable (H : Bytes → Bytes) {σ : Type} (V : Bytes → Bytes → σ → Bool)
 
-theorem failed_rotation_unchanged (w : World) (auths : List Addr) (ws : WSigners) (proof : Proof σ) (bypass : Bool) (e : Err)
-    (h : (step H V w (.rotate auths ws proof bypass)).2 = .err e) :
-    (step H V w (.rotate auths ws proof bypass)).1 = w := by
-  simp only [step] at h ⊢
-  split <;> simp_all
+/-! ### helper lemmas -/
+
+theorem validateProof_ok {st : State} {dh : Bytes} {proof : Proof σ} {b : Bool}
+    (h : validateProof H V st dh proof = .ok b) :
+    ∃ e, st.epochByHash (signersHash H proof.weightedSigners) = some e ∧ e ≤ st.epoch ∧
+      st.epoch - e ≤ st.retention ∧ b = (e == st.epoch) := by
+  unfold validateProof at h
+  simp only at h
+  split at h
+  · cases h
+  · rename_i e he
+    split at h
+    · cases h
+    · split at h
+      · cases h
+      · split at h
+        · cases h
+        · cases h
+        · injection h with h
+          exact ⟨e, he, by omega, by omega, h.symm⟩
+
+/-- non-rotating operations leave the auth part of the state alone -/
+def Keeps (st st' : State) : Prop :=
+  st'.epoch = st.epoch ∧ st'.retention = st.retention ∧ st'.epochByHash = st.epochByHash
+
+theorem Keeps.refl (st : State) : Keeps st st := ⟨rfl, rfl, rfl⟩
+
+theorem approveLoop_keeps (ms : List Message) (st : State) : Keeps st (approveLoop H ms st).1 := by
+  induction ms generalizing st with
+  | nil => exact Keeps.refl st
+  | cons m rest ih =>
+    unfold approveLoop
+    split
+    · exact ih st
+    · have := ih { st with approvals := fun c i =>
+        if c = m.sourceChain ∧ i = m.messageId then .approved (messageHash H m) else st.approvals c i }
+      exact this
+
+theorem approveMessages_keeps {st : State} {ms : List Message} {proof : Proof σ} {r : State × List Event}
+    (h : approveMessages H V st ms proof = .ok r) : Keeps st r.1 := by
+  unfold approveMessages at h
+  split at h
+  · cases h
+  · split at h
+    · cases h
+    · injection h with h
+      subst h
+      exact approveLoop_keeps H ms st
+
+theorem rotateSignersInner_ok {st : State} {ws : WSigners} {enf : Bool} {now : Nat} {r : State × Event}
+    (h : rotateSignersInner H st ws enf now = .ok r) :
+    r.1.epoch = st.epoch + 1 ∧ r.1.retention = st.retention ∧
+      ∀ x e, st.epochByHash x = some e → r.1.epochByHash x = some e := by
+  unfold rotateSignersInner at h
+  split at h
+  · cases h
+  · simp only at h
+    split at h
+    · cases h
+    · split at h
+      · cases h
+      · split at h
+        · cases h
+        · rename_i hdup
+          injection h with h
+          subst h
+          refine ⟨rfl, rfl, ?_⟩
+          intro x e hx
+          simp only
+          by_cases hxe : x = signersHash H ws
+          · subst hxe
+            simp [hx] at hdup
+          · simp [hxe, hx]
+
+theorem rotateSigners_ok {st : State} {auths : List Addr} {ws : WSigners} {proof : Proof σ} {bp : Bool} {now : Nat}
+    {r : State × List Event}
+    (h : rotateSigners H V st auths ws proof bp now = .ok r) :
+    r.1.epoch = st.epoch + 1 ∧ r.1.retention = st.retention ∧
+      ∀ x e, st.epochByHash x = some e → r.1.epochByHash x = some e := by
+  unfold rotateSigners at h
+  split at h
+  · cases h
+  · split at h
+    · cases h
+    · split at h
+      · cases h
+      · split at h
+        · cases h
+        · rename_i st' ev hin
+          injection h with h
+          subst h
+          exact rotateSignersInner_ok H hin
+
+theorem validateMessage_keeps {st : State} {auths : List Addr} {caller : Addr} {chain id src ph : Bytes}
+    {r : State × Bool × List Event}
+    (h : validateMessage H st auths caller chain id src ph = .ok r) : Keeps st r.1 := by
+  unfold validateMessage at h
+  split at h
+  · cases h
+  · simp only at h
+    split at h
+    · injection h with h; subst h; exact ⟨rfl, rfl, rfl⟩
+    · injection h with h; subst h; exact ⟨rfl, rfl, rfl⟩
+
+theorem callContract_keeps {st : State} {auths : List Addr} {caller : Addr} {chain dest payload : Bytes}
+    {r : State × List Event}
+    (h : callContract H st auths caller chain dest payload = .ok r) : Keeps st r.1 := by
+  unfold callContract at h
+  split at h
+  · cases h
+  · injection h with h; subst h; exact ⟨rfl, rfl, rfl⟩
+
+theorem transferOwnership_keeps {st : State} {auths : List Addr} {new : Addr} {r : State × List Event}
+    (h : transferOwnership st auths new = .ok r) : Keeps st r.1 := by
+  unfold transferOwnership at h
+  split at h
+  · cases h
+  · injection h with h; subst h; exact ⟨rfl, rfl, rfl⟩
+
+theorem transferOperatorship_keeps {st : State} {auths : List Addr} {new : Addr} {r : State × List Event}
+    (h : transferOperatorship st auths new = .ok r) : Keeps st r.1 := by
+  unfold transferOperatorship at h
+  split at h
+  · cases h
+  · injection h with h; subst h; exact ⟨rfl, rfl, rfl⟩
+
+theorem run_nil (w : World) : run H V w ([] : List (Op σ)) = (w, []) := rfl
+
+theorem run_cons (w : World) (op : Op σ) (ops : List (Op σ)) :
+    run H V w (op :: ops) =
+      ((run H V (step H V w op).1 ops).1, (step H V w op).2 :: (run H V (step H V w op).1 ops).2) := rfl
+
+/-- one step: retention is constant, installed hashes keep their epoch -/
+theorem step_stable (w : World) (op : Op σ) :
+    (step H V w op).1.st.retention = w.st.retention ∧
+      ∀ x e, w.st.epochByHash x = some e → (step H V w op).1.st.epochByHash x = some e := by
+  cases op with
+  | approve ms proof =>
+    unfold step
+    simp only
+    split
+    · rename_i st' evs h
+      have := approveMessages_keeps H V h
+      exact ⟨this.2.1, fun x e hx => by simp only; rw [this.2.2]; exact hx⟩
+    · exact ⟨rfl, fun _ _ hx => hx⟩
+  | rotate auths ws proof bypass =>
+    unfold step
+    simp only
+    split
+    · rename_i st' evs h
+      have := rotateSigners_ok H V h
+      exact ⟨this.2.1, this.2.2⟩
+    · exact ⟨rfl, fun _ _ hx => hx⟩
+  | validateMessage auths caller chain id src ph =>
+    unfold step
+    simp only
+    split
+    · rename_i st' b evs h
+      have := validateMessage_keeps H h
+      exact ⟨this.2.1, fun x e hx => by simp only; rw [this.2.2]; exact hx⟩
+    · exact ⟨rfl, fun _ _ hx => hx⟩
+  | callContract auths caller chain dest payload =>
+    unfold step
+    simp only
+    split
+    · rename_i st' evs h
+      have := callContract_keeps H h
+      exact ⟨this.2.1, fun x e hx => by simp only; rw [this.2.2]; exact hx⟩
+    · exact ⟨rfl, fun _ _ hx => hx⟩
+  | transferOwnership auths new =>
+    unfold step
+    simp only
+    split
+    · rename_i st' evs h
+      have := transferOwnership_keeps h
+      exact ⟨this.2.1, fun x e hx => by simp only; rw [this.2.2]; exact hx⟩
+    · exact ⟨rfl, fun _ _ hx => hx⟩
+  | transferOperatorship auths new =>
+    unfold step
+    simp only
+    split
+    · rename_i st' evs h
+      have := transferOperatorship_keeps h
+      exact ⟨this.2.1, fun x e hx => by simp only; rw [this.2.2]; exact hx⟩
+    · exact ⟨rfl, fun _ _ hx => hx⟩
+  | setTime now => exact ⟨rfl, fun _ _ hx => hx⟩
+
+
+/-- For a set installed at epoch `e` and a proof whose signatures are otherwise fine, the proof check
+    (used by approvals, standalone checks and rotations alike) succeeds iff at most `retention` newer sets exist. -/
+theorem retained_iff (st : State) (dh : Bytes) (proof : Proof σ) (e : Nat)
+    (hinst : st.epochByHash (signersHash H proof.weightedSigners) = some e) (he : e ≤ st.epoch)
+    (hsig : validateSignaturesLoop V (messageHashToSign H st.domain (signersHash H proof.weightedSigners) dh)
+              proof.threshold proof.signers 0 = .ok true) :
+    (∃ b, validateProof H V st dh proof = .ok b) ↔ st.epoch - e ≤ st.retention := by
+  unfold validateProof
+  simp only [hinst]
+  have h1 : ¬ st.epoch < e := by omega
+  simp only [h1, if_false]
+  by_cases h2 : st.epoch - e > st.retention
+  · simp only [h2, if_true]
+    constructor
+    · rintro ⟨b, hb⟩; cases hb
+    · intro h; omega
+  · simp only [h2, if_false, hsig]
+    exact ⟨fun _ => by omega, fun _ => ⟨_, rfl⟩⟩
+
+/-- the approval path honours exactly the same window -/
+theorem approve_retained_iff (st : State) (ms : List Message) (hms : ms ≠ []) (proof : Proof σ) (e : Nat)
+    (hinst : st.epochByHash (signersHash H proof.weightedSigners) = some e) (he : e ≤ st.epoch)
+    (hsig : validateSignaturesLoop V (messageHashToSign H st.domain (signersHash H proof.weightedSigners) (approveDataHash H ms))
+              proof.threshold proof.signers 0 = .ok true) :
+    (∃ r, approveMessages H V st ms proof = .ok r) ↔ st.epoch - e ≤ st.retention := by
+  have hr := retained_iff H V st (approveDataHash H ms) proof e hinst he hsig
+  rw [← hr]
+  unfold approveMessages
+  have hne : ms.isEmpty = false := by cases ms with
+    | nil => exact absurd rfl hms
+    | cons _ _ => rfl
+  constructor
+  · rintro ⟨r, h⟩
+    split at h
+    · cases h
+    · rename_i b hb; exact ⟨b, hb⟩
+  · rintro ⟨b, hb⟩
+    simp [hb, hne]
+
+/-- without bypass only the newest set can authorise a rotation -/
+theorem nonbypass_needs_latest (st : State) (auths : List Addr) (ws : WSigners) (proof : Proof σ) (now : Nat)
+    (r : State × List Event)
+    (h : rotateSigners H V st auths ws proof false now = .ok r) :
+    st.epochByHash (signersHash H proof.weightedSigners) = some st.epoch := by
+  unfold rotateSigners at h
+  split at h
+  · cases h
+  · split at h
+    · cases h
+    · rename_i isLatest hv
+      split at h
+      · cases h
+      · rename_i hl
+        simp only [Bool.false_or, Bool.not_eq_true', Bool.not_eq_false] at hl
+        obtain ⟨e, he, _, _, hb⟩ := validateProof_ok H V hv
+        rw [hl] at hb
+        have : e = st.epoch := by simpa using hb.symm
+        rw [he, this]
+
+/-- a bypass rotation is refused for a set outside the window no matter who authorises it -/
+theorem bypass_needs_retained (st : State) (auths : List Addr) (ws : WSigners) (proof : Proof σ) (now e : Nat)
+    (r : State × List Event)
+    (hinst : st.epochByHash (signersHash H proof.weightedSigners) = some e)
+    (h : rotateSigners H V st auths ws proof true now = .ok r) :
+    e ≤ st.epoch ∧ st.epoch - e ≤ st.retention := by
+  unfold rotateSigners at h
+  split at h
+  · cases h
+  · split at h
+    · cases h
+    · rename_i isLatest hv
+      obtain ⟨e', he', h1, h2, _⟩ := validateProof_ok H V hv
+      rw [hinst] at he'
+      injection he' with he'
+      subst he'
+      exact ⟨h1, h2⟩
+
+/-- number of successful rotations in a list of observations paired with their operations -/
+def rotations : List (Op σ) → List Obs → Nat
+  | (.rotate _ _ _ _) :: ops, (.ok _) :: os => rotations ops os + 1
+  | _ :: ops, _ :: os => rotations ops os
+  | _, _ => 0
+
+
+theorem rotations_cons (op : Op σ) (ops : List (Op σ)) (o : Obs) (os : List Obs) :
+    rotations (op :: ops) (o :: os) = rotations [op] [o] + rotations ops os := by
+  cases op <;> cases o <;> simp [rotations, Nat.add_comm]
+
+theorem step_epoch (w : World) (op : Op σ) :
+    (step H V w op).1.st.epoch = w.st.epoch + rotations [op] [(step H V w op).2] := by
+  cases op with
+  | approve ms proof =>
+    unfold step
+    simp only
+    split
+    · rename_i st' evs h
+      have := approveMessages_keeps H V h
+      simp only [rotations]
+      exact this.1
+    · simp [rotations]
+  | rotate auths ws proof bypass =>
+    unfold step
+    simp only
+    split
+    · rename_i st' evs h
+      have := rotateSigners_ok H V h
+      simp only [rotations]
+      exact this.1
+    · simp [rotations]
+  | validateMessage auths caller chain id src ph =>
+    unfold step
+    simp only
+    split
+    · rename_i st' b evs h
+      have := validateMessage_keeps H h
+      simp only [rotations]
+      exact this.1
+    · simp [rotations]
+  | callContract auths caller chain dest payload =>
+    unfold step
+    simp only
+    split
+    · rename_i st' evs h
+      have := callContract_keeps H h
+      simp only [rotations]
+      exact this.1
+    · simp [rotations]
+  | transferOwnership auths new =>
+    unfold step
+    simp only
+    split
+    · rename_i st' evs h
+      have := transferOwnership_keeps h
+      simp only [rotations]
+      exact this.1
+    · simp [rotations]
+  | transferOperatorship auths new =>
+    unfold step
+    simp only
+    split
+    · rename_i st' evs h
+      have := transferOperatorship_keeps h
+      simp only [rotations]
+      exact this.1
+    · simp [rotations]
+  | setTime now => simp [step, rotations]
+
+/-- history form: the epoch after any history is the old epoch plus the number of successful rotations … -/
+theorem epoch_after_history (w : World) (ops : List (Op σ)) :
+    (run H V w ops).1.st.epoch = w.st.epoch + rotations ops (run H V w ops).2 := by
+  induction ops generalizing w with
+  | nil => simp [run_nil, rotations]
+  | cons op ops ih =>
+    rw [run_cons]
+    simp only
+    rw [ih, rotations_cons, step_epoch H V w op]
+    omega
+
+theorem installed_epoch_stable_aux (w : World) (ops : List (Op σ)) (h : Bytes) (e : Nat)
+    (hinst : w.st.epochByHash h = some e) :
+    (run H V w ops).1.st.epochByHash h = some e ∧ (run H V w ops).1.st.retention = w.st.retention := by
+  induction ops generalizing w with
+  | nil => exact ⟨hinst, rfl⟩
+  | cons op ops ih =>
+    rw [run_cons]
+    simp only
+    have hs := step_stable H V w op
+    have := ih (step H V w op).1 (hs.2 h e hinst)
+    exact ⟨this.1, this.2.trans hs.1⟩
+
+/-- … an installed set keeps its epoch forever, and the retention setting never changes … -/
+theorem installed_epoch_stable (w : World) (ops : List (Op σ)) (h : Bytes) (e : Nat)
+    (hinv : GInv H w.st) (hinst : w.st.epochByHash h = some e) :
+    (run H V w ops).1.st.epochByHash h = some e ∧ (run H V w ops).1.st.retention = w.st.retention := by
+  have _ := hinv
+  exact installed_epoch_stable_aux H V w ops h e hinst
+
+/-- … so a set installed at `e` is honoured after `k` further successful rotations iff `(epoch - e) + k ≤ retention`:
+    refused from the moment one more than `retention` newer sets exist. -/
+theorem after_k_rotations (w : World) (ops : List (Op σ)) (dh : Bytes) (proof : Proof σ) (e : Nat)
+    (hinv : GInv H w.st)
+    (hinst : w.st.epochByHash (signersHash H proof.weightedSigners) = some e) (he : e ≤ w.st.epoch)
+    (hsig : validateSignaturesLoop V
+              (messageHashToSign H (run H V w ops).1.st.domain (signersHash H proof.weightedSigners) dh)
+              proof.threshold proof.signers 0 = .ok true) :
+    (∃ b, validateProof H V (run H V w ops).1.st dh proof = .ok b) ↔
+      (w.st.epoch - e) + rotations ops (run H V w ops).2 ≤ w.st.retention := by
+  have _ := hinv
+  have hst := installed_epoch_stable_aux H V w ops (signersHash H proof.weightedSigners) e hinst
+  have hep := epoch_after_history H V w ops
+  have he' : e ≤ (run H V w ops).1.st.epoch := by omega
+  rw [retained_iff H V (run H V w ops).1.st dh proof e hst.1 he' hsig, hst.2, hep]
+  omega
 
 end Cgp.Props.C08
